@@ -175,12 +175,13 @@ impl Dumper {
                             let ft = f.ty_with_args(&args);
                             fields.push(json!({"name": f.name, "ty": self.ty(ft)}));
                         }
-                        let discr = if def.kind() == AdtKind::Enum {
-                            json!(def.discriminant_for_variant(rustc_public::ty::VariantIdx::to_val(vi)).val.to_string())
+                        let (discr, discr_ty) = if def.kind() == AdtKind::Enum {
+                            let d = def.discriminant_for_variant(rustc_public::ty::VariantIdx::to_val(vi));
+                            (json!(d.val.to_string()), json!(self.ty(d.ty)))
                         } else {
-                            Value::Null
+                            (Value::Null, Value::Null)
                         };
-                        variants.push(json!({"name": v.name(), "fields": fields, "discr": discr}));
+                        variants.push(json!({"name": v.name(), "fields": fields, "discr": discr, "discr_ty": discr_ty}));
                     }
                     let o = rec.as_object_mut().unwrap();
                     o.insert("args".into(), a);
@@ -437,7 +438,10 @@ impl Dumper {
                     if let Some(next) = self.iter_next {
                         for g in &args.0 {
                             if let GenericArgKind::Type(t) = g {
-                                let looks_iter = format!("{}", t).contains("iter::") || format!("{}", t).contains("Iter");
+                                let ts = format!("{}", t);
+                                let looks_iter = ["iter::", "Iter", "Drain", "Chunks", "Windows", "Keys<", "Values<", "ValuesMut<", "Union<", "Intersection<",
+                                    "Difference<", "Chars<", "Bytes<", "Split", "Lines<", "ops::Range", "RangeInclusive", "Rev<", "Enumerate<"]
+                                    .iter().any(|p| ts.contains(p)) && !ts.starts_with('&');
                                 if looks_iter {
                                     let ga = GenericArgs(vec![GenericArgKind::Type(*t)]);
                                     if let Ok(i) = Instance::resolve(next, &ga) {
